@@ -352,7 +352,8 @@ def c07(tier):
                 'nesting). impl->spec: seeded random ASTs in the parser range and the ASTs the parser produced for the in-repo corpus are printed back minimally, fully parenthesised '
                 'and with whitespace / line-comment / block-comment (UTF-8) decorations at token boundaries, and parsed again. TLC (TraceParse) compares the trees and checks '
                 'InParserRange. Arbitrary token sequences (valid programs and 4 token-level mutations of each): the TLA+ grammar FMLParser (recursive descent over the whole language) says which '
-                'are programs and which tree they denote, the real parser must accept exactly those and return that tree (TraceParseTokens). distinct_nontrivial = distinct source texts parsed and judged.')
+                'are programs and which tree they denote, the real parser must accept exactly those and return that tree (TraceParseTokens). Arbitrary text (corpus files, decorated and tightly spaced printings, character-level mutations) '
+                'is judged the same way from its code points alone by the TLA+ lexer + grammar (FMLLexer.ParseText, TraceParseText). distinct_nontrivial = distinct source texts parsed and judged.')
     exe = build('debug')
     wd = scratch('c07')
     r = tlc_or_die('MC_Syntax', workers=8, timeout=1800)
@@ -452,6 +453,53 @@ def c07(tier):
                 chk.violation('%s: %s' % (name[:120], v), {'case': name, 'source': ' '.join(toks)[:3000], 'verdict': v, 'parse_msg': touts[rec['id']].get('parse_msg', '')[:300],
                                                       'signature': {'kind': 'grammar', 'verdict': v}})
     chk.notes['token_sequences_judged_by_the_TLA_grammar'] = tcounts
+    # arbitrary TEXT: the TLA+ lexer + grammar (FMLLexer.ParseText) decide from the code points alone; corpus files, decorated and tightly spaced
+    # printings, and character-level mutations (stray quotes, backslashes, comment openers, non-ASCII characters, deleted / swapped characters)
+    import re as _re
+    xcases = [(p['name'], p['text']) for p in corp]
+    for name, ast in asts[:tier_sizes(tier, 200, 4000)]:
+        a = copy.deepcopy(ast)
+        xcases.append(('decorated-text:' + name, unparse(a, rng=rng, decorate=0.6, full=(rng.random() < 0.3))))
+        tk = tokens_of(copy.deepcopy(ast))
+        tight = ''.join(x if i == 0 or not (_re.match(r'[_A-Za-z0-9"-]', x[0]) and _re.match(r'[_A-Za-z0-9"]', tk[i - 1][-1])) else ' ' + x for i, x in enumerate(tk))
+        xcases.append(('tight-text:' + name, tight))
+        s0 = unparse(copy.deepcopy(ast))
+        for _ in range(2):
+            i = rng.randrange(len(s0))
+            c = rng.random()
+            if c < 0.3:
+                s2 = s0[:i] + s0[i + 1:]
+            elif c < 0.65:
+                s2 = s0[:i] + rng.choice(['"', '\\', '/*', '*/', '//', '!', '-', '<', '=', '#', '\n', '\t', 'é', '1', 'x', '.', '@', '**/', '/**', '\u00a0', '\u2028', '0', '_']) + s0[i:]
+            else:
+                s2 = s0[:i] + s0[i + 1:i + 2] + s0[i:i + 1] + s0[i + 2:]
+            xcases.append(('char-mutated-text:' + name, s2))
+    xouts = run_harness(exe, 'run', [{'id': i, 'text': c[1], 'want': ['ast', 'parseonly']} for i, c in enumerate(xcases)], wd, tag='c07x', jobs=16)
+    xrecs = []
+    for i, o in enumerate(xouts):
+        words = sorted(set(_re.findall(r'[_A-Za-z][_A-Za-z0-9]*', xcases[i][1])))
+        xrecs.append({'id': i, 'cps': [ord(ch) for ch in xcases[i][1]], 'names': [{'s': w, 'b': [ord(ch) for ch in w]} for w in words],
+                      'status': 'panic' if o.get('crash') is not None else o.get('parse', 'panic'), 'parsed': o.get('ast', {'t': 'none'})})
+        chk.count(hashlib.sha1(xcases[i][1].encode()).hexdigest())
+    xcounts = {}
+    for b in range(0, len(xrecs), 2500):
+        part = xrecs[b:b + 2500]
+        xpath = os.path.join(wd, 'texts.%d.ndjson' % b)
+        write_ndjson(xpath, part)
+        rx = tlc_or_die('TraceParseText', env={'TEXTS': xpath}, workers=12, timeout=1800, tag='c07x')
+        chk.add_tlc(rx)
+        xv = {v['id']: v for v in rx.lines.get('VERDICT', [])}
+        if len(xv) != len(part):
+            raise ToolError('TraceParseText: %d verdicts for %d texts' % (len(xv), len(part)))
+        for rec in part:
+            v = xv[rec['id']]['verdict']
+            xcounts[v] = xcounts.get(v, 0) + 1
+            chk.traces += 1
+            if v not in ('accepted', 'rejected'):
+                name, text = xcases[rec['id']]
+                chk.violation('%s: %s' % (name[:120], v), {'case': name, 'source': text[:3000], 'verdict': v, 'parse_msg': xouts[rec['id']].get('parse_msg', '')[:300],
+                                                      'signature': {'kind': 'front-end', 'verdict': v}})
+    chk.notes['texts_judged_by_the_TLA_lexer_and_grammar'] = xcounts
     chk.notes['verdict_counts'] = counts
     chk.notes['round_trip_texts'] = len(asts) * 4
     chk.exhaustive = True
